@@ -55,7 +55,7 @@ BScen ==
                 w \in {<<8, 8>>, <<64, 64>>, <<200, 100>>, <<256, 256>>} }
   \cup UNION { { Sc("big", "none", o, <<>>, <<a>>, <<n>>) : o \in BOps1, a \in UVals(n) } : n \in {1, 8, 95, 96, 97, 200, 256, 1024} }
   \cup UNION { { Sc("big", "none", "is_equal_to_fixed", <<c>>, <<a>>, <<n>>) : a \in UVals(n), c \in UVals(n) \cup {Pow2(n), Pow2(300)} } :
-                n \in {8, 96, 200} }
+                n \in {8, 96, 192, 200} }
   \cup { Sc("big", "none", "select", <<>>, <<b, p[1], p[2]>>, <<1, 200, 200>>) :
         b \in {Zero, One}, p \in {<<Zero, One>>, <<Sub(Pow2(200), One), Pow2(96)>>} }
 
